@@ -106,6 +106,26 @@ pub fn fx_seen<T: Fx>(t: &T) {
         INVALID.with(|c| c.set(c.get() + 1));
     }
 }
+/// a value reached through an EXCLUSIVE view: valid bit pattern (INVALID) and located inside the input (OUTSIDE)
+pub fn fx_at<T: Fx>(t: &T, input: (usize, usize)) {
+    fx_seen(t);
+    span_inside(t as *const T as usize, std::mem::size_of::<T>(), input);
+}
+/// `[start, start+len)` must lie inside the input
+pub fn span_inside(start: usize, len: usize, input: (usize, usize)) -> i128 {
+    let ok = start >= input.0 && start.checked_add(len).map_or(false, |e| e <= input.0 + input.1);
+    if !ok {
+        OUTSIDE.with(|c| c.set(c.get() + 1));
+    }
+    ok as i128
+}
+/// one accessor under `catch_unwind`: pushes what it returns, -2 for a controlled panic
+pub fn acc(out: &mut Vec<i128>, f: impl FnOnce() -> i128) {
+    match crate::guarded(f) {
+        Ok(v) => out.push(v),
+        Err(()) => out.push(-2),
+    }
+}
 pub fn fx_push_bytes<T: Fx>(t: &T, out: &mut Vec<i128>) {
     let b = bytemuck::bytes_of(t);
     out.push(b.len() as i128);
@@ -173,6 +193,21 @@ where
     /// iterator yields, whether its extent lies inside the input
     fn scan(_p: &Self::Ptr, _input: (usize, usize), _out: &mut Vec<i128>) -> Result<()> {
         Ok(())
+    }
+
+    /// exercise every MUTABLE accessor (`&mut self` methods of the pointer and of what it derefs to: mutable iteration,
+    /// indexing, slices, by key) below this pointer, which belongs to an EXCLUSIVE view over `input`; every accessor
+    /// runs under `catch_unwind` on its own (-1 = None, -2 = controlled panic, -3 = error), every fixed-size value
+    /// reached goes through `fx_at` (INVALID / OUTSIDE) and every element pointer through `inside` (OUTSIDE)
+    fn scan_mut(_p: &mut Self::Ptr, _input: (usize, usize), _out: &mut Vec<i128>) {}
+
+    /// the same through the CHILD WRAPPERS of an exclusive wrapper (`get_exclusive`, generated field accessors, the
+    /// generated enum `get()`); a node without children walks its pointer
+    fn scan_excl<'p, 't, P>(w: &mut ExclusiveWrapper<'p, 't, Self::Ptr, P>, input: (usize, usize), out: &mut Vec<i128>)
+    where
+        ExclusiveWrapper<'p, 't, Self::Ptr, P>: ExclusiveRecurse,
+    {
+        Self::scan_mut(&mut **w, input, out)
     }
 
     /// insert `keys.len()` new elements of this type into a parent list of unsized elements
@@ -353,6 +388,70 @@ impl<T: Fx, L: Lw> Node for List<T, L> {
         }
         Ok(())
     }
+    fn scan_mut(p: &mut Self::Ptr, input: (usize, usize), out: &mut Vec<i128>) {
+        let l: &mut List<T, L> = &mut **p;
+        let n = l.len();
+        out.push(n as i128);
+        // mutable iteration: iter_mut and `for x in &mut list`
+        acc(out, || {
+            let mut k = 0;
+            for item in l.iter_mut() {
+                fx_at(&*item, input);
+                k += 1;
+            }
+            k
+        });
+        acc(out, || {
+            let mut k = 0;
+            for item in &mut *l {
+                fx_at(&*item, input);
+                k += 1;
+            }
+            k
+        });
+        // by index: get_mut(i), IndexMut<usize>; one past the end
+        for i in 0..n.min(64) {
+            acc(out, || match l.get_mut(i) {
+                Some(x) => {
+                    fx_at(&*x, input);
+                    1
+                }
+                None => -1,
+            });
+            acc(out, || {
+                let x: &mut T = &mut l[i];
+                fx_at(&*x, input);
+                1
+            });
+        }
+        acc(out, || match l.get_mut(n) {
+            Some(x) => {
+                fx_at(&*x, input);
+                1
+            }
+            None => -1,
+        });
+        // slices: as_checked_mut_slice, IndexMut over every kind of range (`as_mut_slice` / DerefMut exist for Pod items only,
+        // which have no invalid bit pattern)
+        fn all<T: Fx>(s: &mut [T], input: (usize, usize)) -> i128 {
+            for x in s.iter_mut() {
+                fx_at(&*x, input);
+            }
+            s.len() as i128
+        }
+        acc(out, || match l.as_checked_mut_slice() {
+            Ok(s) => all(s, input),
+            Err(_) => -3,
+        });
+        acc(out, || all(&mut l[..], input));
+        acc(out, || all(&mut l[0..n], input));
+        acc(out, || all(&mut l[n / 2..], input));
+        acc(out, || all(&mut l[..n], input));
+        if n > 0 {
+            acc(out, || all(&mut l[0..=n - 1], input));
+            acc(out, || all(&mut l[..=n - 1], input));
+        }
+    }
     fn set_init<'p, 't, P>(w: &mut ExclusiveWrapper<'p, 't, Self::Ptr, P>, kind: i128) -> Result<()>
     where
         ExclusiveWrapper<'p, 't, Self::Ptr, P>: ExclusiveRecurse,
@@ -442,6 +541,17 @@ impl Node for RemainingBytes {
             }
             _ => unsupported(),
         }
+    }
+    fn scan_mut(p: &mut Self::Ptr, input: (usize, usize), out: &mut Vec<i128>) {
+        // DerefMut to the byte slice
+        acc(out, || {
+            let b: &mut [u8] = &mut **p;
+            span_inside(b.as_ptr() as usize, b.len(), input);
+            for x in b.iter_mut() {
+                fx_at(&*x, input);
+            }
+            b.len() as i128
+        });
     }
     fn set_init<'p, 't, P>(w: &mut ExclusiveWrapper<'p, 't, Self::Ptr, P>, kind: i128) -> Result<()>
     where
@@ -607,6 +717,82 @@ where
             None => Ok(()),
         }
     }
+    fn scan_mut(p: &mut Self::Ptr, input: (usize, usize), out: &mut Vec<i128>) {
+        let n = p.len();
+        out.push(n as i128);
+        // there is no mutable iterator over unsized elements: get_mut / index_mut / first_mut / last_mut
+        for i in 0..n.min(64) {
+            let mut sub = vec![];
+            acc(out, || match p.get_mut(i) {
+                Ok(Some(e)) => {
+                    let f = inside::<T>(&*e, input);
+                    T::scan_mut(e, input, &mut sub);
+                    f
+                }
+                Ok(None) => -1,
+                Err(_) => -3,
+            });
+            out.extend(sub);
+            acc(out, || match p.index_mut(i) {
+                Ok(e) => inside::<T>(&*e, input),
+                Err(_) => -3,
+            });
+        }
+        acc(out, || match p.get_mut(n) {
+            Ok(Some(e)) => inside::<T>(&*e, input),
+            Ok(None) => -1,
+            Err(_) => -3,
+        });
+        acc(out, || match p.first_mut() {
+            Ok(Some(e)) => inside::<T>(&*e, input),
+            Ok(None) => -1,
+            Err(_) => -3,
+        });
+        acc(out, || match p.last_mut() {
+            Ok(Some(e)) => inside::<T>(&*e, input),
+            Ok(None) => -1,
+            Err(_) => -3,
+        });
+    }
+    fn scan_excl<'p, 't, P>(w: &mut ExclusiveWrapper<'p, 't, Self::Ptr, P>, input: (usize, usize), out: &mut Vec<i128>)
+    where
+        ExclusiveWrapper<'p, 't, Self::Ptr, P>: ExclusiveRecurse,
+    {
+        let n = w.len();
+        out.push(n as i128);
+        for i in 0..n.min(64) {
+            let mut sub = vec![];
+            acc(out, || match w.get_exclusive(i) {
+                Ok(Some(mut ch)) => {
+                    let f = inside::<T>(&*ch, input);
+                    T::scan_excl(&mut ch, input, &mut sub);
+                    f
+                }
+                Ok(None) => -1,
+                Err(_) => -3,
+            });
+            out.extend(sub);
+            acc(out, || match w.index_exclusive(i) {
+                Ok(ch) => inside::<T>(&*ch, input),
+                Err(_) => -3,
+            });
+        }
+        acc(out, || match w.get_exclusive(n) {
+            Ok(Some(ch)) => inside::<T>(&*ch, input),
+            Ok(None) => -1,
+            Err(_) => -3,
+        });
+        acc(out, || match w.first_exclusive() {
+            Ok(Some(ch)) => inside::<T>(&*ch, input),
+            Ok(None) => -1,
+            Err(_) => -3,
+        });
+        acc(out, || match w.last_exclusive() {
+            Ok(Some(ch)) => inside::<T>(&*ch, input),
+            Ok(None) => -1,
+            Err(_) => -3,
+        });
+    }
     crate::default_only_inits!();
 }
 
@@ -661,6 +847,67 @@ where
             }
         }
         Ok(())
+    }
+    fn scan_mut(p: &mut Self::Ptr, input: (usize, usize), out: &mut Vec<i128>) {
+        let n = p.len();
+        out.push(n as i128);
+        // mutable iteration: iter_mut, `for (k, v) in &mut map`, values_mut
+        acc(out, || {
+            let mut c = 0;
+            for (k, v) in p.iter_mut() {
+                fx_at(k, input);
+                fx_at(&*v, input);
+                c += 1;
+            }
+            c
+        });
+        acc(out, || {
+            let mut c = 0;
+            for (k, v) in &mut *p {
+                fx_at(k, input);
+                fx_at(&*v, input);
+                c += 1;
+            }
+            c
+        });
+        acc(out, || {
+            let mut c = 0;
+            for v in p.values_mut() {
+                fx_at(&*v, input);
+                c += 1;
+            }
+            c
+        });
+        // by index and by key
+        for i in 0..n.min(64) {
+            let mut key: Option<K> = None;
+            acc(out, || match p.get_by_index_mut(i) {
+                Some((k, v)) => {
+                    fx_at(k, input);
+                    fx_at(&*v, input);
+                    key = Some(*k);
+                    1
+                }
+                None => -1,
+            });
+            if let Some(k) = key {
+                acc(out, || match p.get_mut(&k) {
+                    Some(v) => {
+                        fx_at(&*v, input);
+                        1
+                    }
+                    None => -1,
+                });
+            }
+        }
+        acc(out, || match p.get_by_index_mut(n) {
+            Some((k, v)) => {
+                fx_at(k, input);
+                fx_at(&*v, input);
+                1
+            }
+            None => -1,
+        });
     }
     fn apply<'p, 't, P>(w: &mut ExclusiveWrapper<'p, 't, Self::Ptr, P>, c: &mut Cur, out: &mut Vec<i128>) -> Result<()>
     where
@@ -731,6 +978,41 @@ where
         }
         Ok(())
     }
+    fn scan_mut(p: &mut Self::Ptr, input: (usize, usize), out: &mut Vec<i128>) {
+        // a Set has no `&mut self` accessor that hands out items: its shared accessors, reached through the exclusive view
+        let n = p.len();
+        out.push(n as i128);
+        acc(out, || {
+            let mut c = 0;
+            for t in p.iter() {
+                fx_at(t, input);
+                c += 1;
+            }
+            c
+        });
+        acc(out, || {
+            let mut c = 0;
+            for t in &*p {
+                fx_at(t, input);
+                c += 1;
+            }
+            c
+        });
+        for i in 0..n.min(64) {
+            let mut item: Option<T> = None;
+            acc(out, || match p.get_by_index(i) {
+                Some(t) => {
+                    fx_at(t, input);
+                    item = Some(*t);
+                    1
+                }
+                None => -1,
+            });
+            if let Some(t) = item {
+                acc(out, || p.contains(&t) as i128);
+            }
+        }
+    }
     fn apply<'p, 't, P>(w: &mut ExclusiveWrapper<'p, 't, Self::Ptr, P>, c: &mut Cur, out: &mut Vec<i128>) -> Result<()>
     where
         ExclusiveWrapper<'p, 't, Self::Ptr, P>: ExclusiveRecurse,
@@ -781,6 +1063,19 @@ impl<L: Lw> Node for UnsizedString<L> {
         for b in o.bytes() {
             out.extend([1, b as i128]);
         }
+    }
+    fn scan_mut(p: &mut Self::Ptr, input: (usize, usize), out: &mut Vec<i128>) {
+        // as_mut_str: a `&mut str` must hold valid UTF-8 and lie inside the input
+        acc(out, || match p.as_mut_str() {
+            Ok(s) => {
+                span_inside(s.as_ptr() as usize, s.len(), input);
+                if std::str::from_utf8(s.as_bytes()).is_err() {
+                    INVALID.with(|c| c.set(c.get() + 1));
+                }
+                s.len() as i128
+            }
+            Err(_) => -3,
+        });
     }
     fn apply<'p, 't, P>(w: &mut ExclusiveWrapper<'p, 't, Self::Ptr, P>, c: &mut Cur, _out: &mut Vec<i128>) -> Result<()>
     where
@@ -915,6 +1210,70 @@ where
             }
         }
         Ok(())
+    }
+    fn scan_mut(p: &mut Self::Ptr, input: (usize, usize), out: &mut Vec<i128>) {
+        let n = p.len();
+        out.push(n as i128);
+        // there is no mutable iterator: get_by_index_mut, get_mut by key
+        for i in 0..n.min(64) {
+            let mut sub = vec![];
+            let mut key: Option<u8> = None;
+            acc(out, || match p.get_by_index_mut(i) {
+                Ok(Some((k, e))) => {
+                    key = Some(k);
+                    let f = inside::<V>(&*e, input);
+                    V::scan_mut(e, input, &mut sub);
+                    f
+                }
+                Ok(None) => -1,
+                Err(_) => -3,
+            });
+            out.extend(sub);
+            if let Some(k) = key {
+                acc(out, || match p.get_mut(&k) {
+                    Ok(Some(e)) => inside::<V>(&*e, input),
+                    Ok(None) => -1,
+                    Err(_) => -3,
+                });
+            }
+        }
+        acc(out, || match p.get_by_index_mut(n) {
+            Ok(Some((_, e))) => inside::<V>(&*e, input),
+            Ok(None) => -1,
+            Err(_) => -3,
+        });
+    }
+    fn scan_excl<'p, 't, P>(w: &mut ExclusiveWrapper<'p, 't, Self::Ptr, P>, input: (usize, usize), out: &mut Vec<i128>)
+    where
+        ExclusiveWrapper<'p, 't, Self::Ptr, P>: ExclusiveRecurse,
+    {
+        let n = w.len();
+        out.push(n as i128);
+        for i in 0..n.min(64) {
+            // the key of entry i (shared accessor), then the child wrapper by key
+            let mut key: Option<u8> = None;
+            acc(out, || match w.get_by_index(i) {
+                Ok(Some((k, e))) => {
+                    key = Some(k);
+                    inside::<V>(&*e, input)
+                }
+                Ok(None) => -1,
+                Err(_) => -3,
+            });
+            if let Some(k) = key {
+                let mut sub = vec![];
+                acc(out, || match w.get_exclusive(&k) {
+                    Ok(Some(mut ch)) => {
+                        let f = inside::<V>(&*ch, input);
+                        V::scan_excl(&mut ch, input, &mut sub);
+                        f
+                    }
+                    Ok(None) => -1,
+                    Err(_) => -3,
+                });
+                out.extend(sub);
+            }
+        }
     }
     crate::default_only_inits!();
 }
